@@ -5,7 +5,7 @@ ID = "C18"
 ML = "mC18"
 HARNESS = "harness/C18.c"
 SRCS = None
-EXTRA_LD = ["-Wl,--wrap=ppoll", "-Wl,--wrap=gettimeofday", "-Wl,--wrap=read"]
+EXTRA_LD = ["-Wl,--wrap=ppoll", "-Wl,--wrap=gettimeofday", "-Wl,--wrap=read", "-Wl,--wrap=waitpid"]
 LEVEL = "proof"      # evidence category; partial overall, see ASSUMPTIONS[0] and notes
 CASE_TIMEOUT = 0.02
 RULE = ("case = callback table + script over the real toplevel instance with the default event loop; ppoll is replaced at "
@@ -23,11 +23,13 @@ ASSUMPTIONS = ["PARTIAL by nature: the loop model is proved to refine the snapsh
                "kernel contract (hypothesis, not proved): a watched signal is blocked outside ppoll, is delivered by the next "
                "ppoll that finds no ready descriptor, and that ppoll then fails with EINTR; ppoll writes revents for every slot",
                "a signal watch is not cancelled while its signal is pending in the kernel (the last cancel restores the default action)",
-               "a callback watching signal S does not register a further watch of S (hypothesis act_ok of C18_refines); registered descriptors are >= 0",
+               "registered descriptors are >= 0 (hypothesis act_ok of C18_refines; nothing else is assumed of the callbacks)",
                "two loops are exercised: the default ppoll-based one (Linux) and a minimal poll loop without ->signal hook (self-pipe fallback)", "malloc does not fail",
                "tickit_run is entered through the script op u<k>: the harness calls tickit_stop from inside the k-th ppoll of the run at the latest; "
-               "the SIGINT watch tickit_run keeps for its duration is not modelled (no script uses signal 2); tickit_run / tickit_tick are not re-entered from callbacks"]
-TRUSTED = ["model coq/LoopPipeDefs.v of the self-pipe fallback (pipe as a byte counter) and the checker coq/LoopPipeSpec.v (obligation per raise and watcher)",
+               "the SIGINT watch tickit_run keeps for its duration is modelled (SIGINT stops the run); a run does not end with SIGINT still blocked-pending "
+               "(cancelling the watch would unblock it and kill the process); tickit_run / tickit_tick are not re-entered from callbacks"]
+TRUSTED = ["model coq/LoopPipeDefs.v of the self-pipe fallback (pipe as a byte counter), proved to refine the snapshot specification coq/LoopPipeSnap.v "
+           "(C18_fallback_refines); oracle for F cases = that specification (log equality) and the checker coq/LoopPipeSpec.v (obligation per raise and watcher)",
            "model coq/LoopSigDefs.v hand-written after src/evloop-default.c and src/tickit.c (with fixes/C18-*.patch applied); "
            "specification coq/LoopSigSpec.v (snapshot semantics, no errno, no revents table; model proved to refine it in coq/LoopSigRefine.v)",
            "harness/loopharness.h: link-time replacement of ppoll that plays the kernel (real signals, real handler, scripted outcome)"]
@@ -79,6 +81,19 @@ def gen(tier, seed, info):
                             nst += 1
                             yield "cb1=%s cb2=%s cb3=e0 cb4=- %s %s %s %s" % (c1, c2, w, lt, a, mode)
     info["stop_run_cases"] = nst
+    # ---- SIGINT during tickit_run: the watch tickit_run keeps for its duration stops the loop (the
+    #      signal is never left pending when the run ends: the limit leaves room for one more pass)
+    nint = 0
+    for w in ["ws10:0:2", "ws10:0:2 ws12:0:3"]:
+        for pre in ["K2", "K2 K10", "K10 K2", "cb1=k2 l0:1", "cb2=k2 K10", "cb1=l0:1 l0:1 K2", "cb1=k2 l0:4 l0:1", "l0:4"]:
+            for lim in [3, 5]:
+                for c3 in ["-", "k10"]:
+                    cbs = [t for t in pre.split() if t.startswith("cb")]
+                    rest = [t for t in pre.split() if not t.startswith("cb")]
+                    nint += 1
+                    yield "%s cb3=%s cb4=- %s %s u%d r0 K10 r0" % (" ".join(cbs), c3, w, " ".join(rest), lim)
+    info["sigint_during_run_cases"] = nint
+    n += nint
     # ---- signal numbers above SIGWINCH and histories that free a signums[] slot first (a cancelled
     #      watch, or tickit_run's own SIGINT watch), so that the new watch REUSES a slot
     nhi = 0
@@ -93,6 +108,19 @@ def gen(tier, seed, info):
                             yield "cb1=- cb2=%s cb3=- %s ws%d:0:2 %s %s %s" % (c2, pre, sg, second, a, mode)
     info["high_signal_cases"] = nhi
     n += nst + nhi
+    # ---- a signal callback registers a further watch of the signal being dispatched: the new watch
+    #      was not watching when the signal was delivered; it waits for the next delivery, whether
+    #      the registering watch is the last of the list or not (both loops)
+    nreg = 0
+    for loop in ["", "F "]:
+        for w in ["ws10:0:1", "ws10:0:1 ws10:0:2", "ws10:0:2 ws10:0:1", "ws10:0:1 ws12:0:2", "ws10:0:2 ws10:0:1 ws10:2:2"]:
+            for c1 in ["ws10:0:2", "ws10:0:3", "ws10:0:2,c0", "c0,ws10:0:2", "ws12:0:2", "ws10:0:2,k10", "ws10:0:1"]:
+                for a in (["k10", "k10 k12", "k10 r0 k10"] if loop else ["K10", "k10", "K10 K12", "k10 r0 K10"]):
+                    for c3 in ["-", "ws10:0:2"]:
+                        nreg += 1
+                        yield "%scb1=%s cb2=- cb3=%s %s %s r0 %s r0 r0" % (loop, c1, c3, w, a, a.split()[0])
+    info["register_during_dispatch_cases"] = nreg
+    n += nreg
     # ---- the self-pipe fallback (custom event loop without a ->signal hook): signals are not
     #      blocked, the handler runs at once; arrival points: before an iteration, from a deferred
     #      callback, from inside a signal callback of the running dispatch (other / same signal),
@@ -169,8 +197,8 @@ def gen(tier, seed, info):
             return "l%d:%d" % (rnd.choice([0, 2]), target())
         if r < 0.84:
             return "k%d" % rnd.choice(SIGS)
-        if r < 0.92 and not for_sig:
-            return "ws%d:%d:%d" % (rnd.choice(SIGS + HISIGS), rnd.choice([0, 2]), sigcb(target()))
+        if r < 0.92:
+            return "ws%d:%d:%d" % (rnd.choice(SIGS + HISIGS), rnd.choice([0, 2]), target())
         if r < 0.96:
             return "s"
         return "-"
@@ -193,7 +221,7 @@ def gen(tier, seed, info):
         for _ in range(nops):
             r = rnd.random()
             if r < 0.2:
-                toks.append("ws%d:%d:%d" % (rnd.choice(SIGS + HISIGS), rnd.choice([0, 2]), sigcb(rnd.randrange(ncb + 1))))
+                toks.append("ws%d:%d:%d" % (rnd.choice(SIGS + HISIGS), rnd.choice([0, 2]), rnd.randrange(ncb + 1)))
             elif r < 0.35:
                 toks.append("wi%d:%d:%d:%d" % (rnd.randrange(4), rnd.choice([1, 2, 3, 5]), rnd.choice([0, 2]), rnd.randrange(ncb + 1)))
             elif r < 0.45:
